@@ -475,9 +475,14 @@ class C10NoSpam(Monitor):
                     {'monitor': 'C10', 'clause': 'command_executed_again',
                      'command': key}))
                 break
+        # judged when the message is posted (no comment is deleted during a
+        # job): comments deleted later by users must not make two older
+        # robot messages "adjacent"
         for pid in [p[0] for p in res.host1['prs']]:
             cs = w.comments(pid)
-            for (i1, u1, t1), (i2, u2, t2) in zip(cs, cs[1:]):
+            n0 = len(res.host0['comments'].get(pid, []))
+            for k in range(max(n0, 1), len(cs)):
+                (i1, u1, t1), (i2, u2, t2) = cs[k - 1], cs[k]
                 if u1 == ROBOT and u2 == ROBOT and t1 == t2:
                     out.append((
                         'C10: the same message was posted twice in a row on '
